@@ -679,7 +679,9 @@ pub fn gen_mp(r: &mut Rng, nonce: u64, steps: u32, step_ms: u64) -> EchoReq {
     let mut fields = Vec::new();
     for _ in 0..nf {
         let name = (*r.pick(&["a", "b", "file", "a", "field_3"])).to_string();
-        let n = r.usize_in(0, 200);
+        // now and then a field larger than the server's default body limit
+        // (the endpoint's own limit is 1 MiB)
+        let n = if r.chance(1, 12) { r.usize_in(66_000, 200_000) } else { r.usize_in(0, 200) };
         let mut content = r.bytes(n);
         // content must not contain the delimiter
         for c in content.iter_mut() {
